@@ -99,6 +99,75 @@ func producesResponse(i ssa.Instruction, w ssa.Value) (status int64, ok bool) {
 		rs := Roots(v)
 		return len(rs) == 1 && rs[0] == w
 	}
+	// an answer written by a new helper, e.g. writeError(w, msg, code): the helper must
+	// answer on its writer parameter on every path; the status is a constant of the
+	// helper or the constant passed at this call site
+	if h := syncHelperCallee(i); h != nil {
+		rawParam := func(v ssa.Value) int {
+			for {
+				switch x := v.(type) {
+				case *ssa.ChangeType:
+					v = x.X
+					continue
+				case *ssa.MakeInterface:
+					v = x.X
+					continue
+				case *ssa.ChangeInterface:
+					v = x.X
+					continue
+				}
+				break
+			}
+			for k, prm := range h.Params {
+				if v == ssa.Value(prm) {
+					return k
+				}
+			}
+			return -1
+		}
+		var st int64
+		found := false
+		EachInstrRaw(h, func(in ssa.Instruction) {
+			hc := CallOf(in)
+			if hc == nil || found {
+				return
+			}
+			wIdx, sIdx := -1, -1
+			var sVal ssa.Value
+			switch CalleeName(hc) {
+			case "net/http.Error":
+				wIdx, sVal = rawParam(hc.Args[0]), hc.Args[2]
+			case "(net/http.ResponseWriter).WriteHeader":
+				wIdx, sVal = rawParam(Args(hc)[0]), Args(hc)[1]
+			default:
+				return
+			}
+			if wIdx < 0 || wIdx >= len(cc.Args) || !same(cc.Args[wIdx]) || !mustExecute(in) {
+				return
+			}
+			if n, isC := ConstInt(sVal); isC {
+				st, found = n, true
+				return
+			}
+			if sIdx = rawParam(sVal); sIdx >= 0 && sIdx < len(cc.Args) {
+				if n, isC := ConstInt(cc.Args[sIdx]); isC {
+					st, found = n, true
+					return
+				}
+			}
+			// the status may pass through a local of the helper (statusCode := code)
+			for _, r := range Roots(sVal) {
+				if sIdx = rawParam(r); sIdx >= 0 && sIdx < len(cc.Args) {
+					if n, isC := ConstInt(cc.Args[sIdx]); isC {
+						st, found = n, true
+					}
+				}
+			}
+		})
+		if found {
+			return st, true
+		}
+	}
 	switch CalleeName(cc) {
 	case "net/http.Error":
 		if same(cc.Args[0]) {
